@@ -100,13 +100,13 @@ type val struct {
 }
 
 type history struct {
-	kind     storage.NeedleMapKind
-	ops      []op
-	eff      []effect
-	dir      string
-	datLen   int64
-	idxN     int
-	desc     string
+	kind   storage.NeedleMapKind
+	ops    []op
+	eff    []effect
+	dir    string
+	datLen int64
+	idxN   int
+	desc   string
 }
 
 func genOps(t *rapid.T, minOps, maxOps int, maxLen int) []op {
